@@ -28,6 +28,7 @@ type TaskCtx struct {
 	Calls int      // number of storage calls made by this request so far
 	Trace []string // storage-call trace of this request: name[:err]
 	InTx  bool
+	Conc  *ctask // set when the request runs as a scheduled task of a concurrent phase
 }
 
 func WithTask(ctx context.Context, t *TaskCtx) context.Context {
